@@ -2247,6 +2247,11 @@ impl<'store> FindTextSelectionsIter<'store> {
     /// If this function returns None, the caller function will loop/recurse
     /// Internally this may iterate backwards over a double ended iterator (but results will be reversed and ordered again)
     fn next_textselection(&mut self) -> Option<TextSelectionHandle> {
+        if self.refset.is_empty() {
+            //nothing relates to an empty reference set (see test()), and there is no position to search from
+            self.drain_buffer = true;
+            return None;
+        }
         if let TextSelectionOperator::Equals { negate: false, .. } = self.operator {
             // (the 'all' modifier makes no difference for equality, see test())
             // this operator is handled separately, we don't need a secondary iterator (textseliter) for it at all
